@@ -106,32 +106,54 @@ def run(tier):
                     chk.fail('rewrite:second-write-raises', case, f'writing the same DLISFile a second time raises {e2}')
                 elif d1 != d2:
                     chk.fail('rewrite:second-write-differs', case, 'the second write of the same DLISFile gives different bytes')
-        # (c) mutation after a write
-        for i in range(10 if tier == 'quick' else 80):
-            spec = filegen.gen_spec(R, n_lf=1, small=True)
+        # (c) mutation after a write: origin references and names of referenced objects change, then rewrite
+        from harness.filegen import Ref
+        for i in range(15 if tier == 'quick' else 120):
+            spec = filegen.gen_spec(R, n_lf=1, small=(i % 2 == 0))
             spec['write']['data_kind'] = 'inline'
-            b = filegen.build(spec)
+            objs = spec['lfs'][0]['objects']
+            # make sure object references of both kinds (OBNAME attributes and the OBJREF attribute SOURCE) exist
+            for oi, o in enumerate(objs):
+                if o['kind'] == 'channel' and 'source' not in o['attrs']:
+                    earlier = [k for k in range(oi) if objs[k]['kind'] not in ('origin', 'frame')]
+                    if earlier and R.random() < 0.6:
+                        o['attrs']['source'] = {'v': Ref(0, R.choice(earlier)), 'units': None, 'route': 'plain'}
+            st0, b = call(filegen.build, spec)
+            if st0 != 'ok':
+                continue
             p = os.path.join(tmp, 'm.dlis')
             kw = dict(input_chunk_size=None, output_chunk_size=2**20)
             s1, _ = call(b.df.write, p, **kw)
             if s1 != 'ok':
                 continue
-            # pick a non-channel, non-origin object and change its origin reference
-            cands = [oi for oi, o in enumerate(spec['lfs'][0]['objects']) if o['kind'] not in ('channel', 'origin', 'frame')]
+            cands = [oi for oi, o in enumerate(objs) if o['kind'] not in ('channel', 'origin', 'frame')]
             if not cands:
                 continue
-            oi = R.choice(cands)
-            newref = R.choice([9, 130])
-            b.handles[0][oi].origin_reference = newref
-            s2, e2 = call(b.df.write, p, **kw)
             mutated = pickle.loads(pickle.dumps(spec))
-            mutated['lfs'][0]['objects'][oi]['origin_reference'] = newref
+            muts = []
+            for oi in cands:
+                k = R.random()
+                if k < 0.4:
+                    newref = R.choice([9, 130])
+                    b.handles[0][oi].origin_reference = newref
+                    mutated['lfs'][0]['objects'][oi]['origin_reference'] = newref
+                    muts.append(f'object #{oi}.origin_reference = {newref}')
+                elif k < 0.7:
+                    newname = objs[oi]['name'][:200] + '-R'
+                    b.handles[0][oi].name = newname
+                    mutated['lfs'][0]['objects'][oi]['name'] = newname
+                    muts.append(f'object #{oi}.name = {newname!r}')
+            if not muts:
+                continue
+            s2, e2 = call(b.df.write, p, **kw)
             stf, fresh = fresh_write(mutated, tmp, 'mut')
-            case = {'index': i, 'spec': filegen.describe(spec), 'mutation': f'object #{oi} origin_reference = {newref} after the first write'}
-            chk.case('mutate-then-rewrite', nontrivial_key=('c', i))
+            case = {'index': i, 'spec': filegen.describe(spec), 'after_first_write': muts}
+            chk.case('mutate-then-rewrite', nontrivial_key=('c', i), sample={'index': i, 'mutations': muts[:3]})
             if s2 == 'ok' and stf == 'ok' and open(p, 'rb').read() != fresh:
-                chk.fail('rewrite:stale-object-name', case, 'after changing an origin reference the rewritten file differs from a '
-                                                            'fresh build of the changed specification')
+                chk.fail('rewrite:stale-object-name', case, 'after changing origin references / names the rewritten file differs '
+                                                            'from a fresh build of the changed specification')
+            elif (s2 == 'ok') != (stf == 'ok'):
+                chk.fail('rewrite:writability-differs-after-mutation', case, f'rewrite {s2} {e2}, fresh build {stf}')
     finally:
         shutil.rmtree(tmp, ignore_errors=True)
     return finish(chk, bres, THEOREMS,
